@@ -530,12 +530,16 @@ func (g *schemaGenerator) generateType(t *schemas.Type, scope nameScope) (codege
 			return nil, fmt.Errorf("invalid type %q: %w", typeName, err)
 		}
 
-		if ncg, ok := cg.(codegen.NamedType); ok {
+		// A nullable format type is a pointer to the named type.
+		named := cg
+		if ptr, ok := cg.(*codegen.PointerType); ok {
+			named = ptr.Type
+		}
+
+		if ncg, ok := named.(codegen.NamedType); ok {
 			for _, imprt := range ncg.Package.Imports {
 				g.output.file.Package.AddImport(imprt.QualifiedName, "")
 			}
-
-			return ncg, nil
 		}
 
 		return cg, nil
@@ -970,12 +974,16 @@ func (g *schemaGenerator) generateTypeInline(t *schemas.Type, scope nameScope) (
 				return nil, fmt.Errorf("invalid type %q: %w", t.Type[typeIndex], err)
 			}
 
-			if ncg, ok := cg.(codegen.NamedType); ok {
+			// A nullable format type is a pointer to the named type.
+			named := cg
+			if ptr, ok := cg.(*codegen.PointerType); ok {
+				named = ptr.Type
+			}
+
+			if ncg, ok := named.(codegen.NamedType); ok {
 				for _, imprt := range ncg.Package.Imports {
 					g.output.file.Package.AddImport(imprt.QualifiedName, "")
 				}
-
-				return ncg, nil
 			}
 
 			return cg, nil
